@@ -16,10 +16,10 @@ NOTE = ("Trusted: go/ssa translation and the engine's Go semantics (A-SSA), solv
         "history-induction meta-argument; all listed per run in evidence 'assumptions'. Functions of the property's anchor files that "
         "are not yet under contract are outside the claim: %s")
 CLAIMED = {
- "C01": (GENERIC % "HashMap, HashBidiMap, LinkedHashMap, TreeMap (by delegation), TreeBidiMap (all operations incl. Put), RedBlackTree (every operation incl. Remove verified against ghost rank/sequence), AVLTree (Get/Clear/Keys/Values; Put, whose recursive driver is verified in the thorough tier and assumed in the quick tier), BTree (construction, in-node search, root split, Clear/Size/Empty, and - against a tree-level ghost invariant - Get/GetNode/searchRecursively/Keys/Values). Bounded stand-in (labelled bounded in the evidence, never counted as proved): RedBlackTree.Remove, AVLTree Put/Remove and BTree Put/Remove (their contracts are assumed, `trusted`) are executed on every Put/Remove history of a stated small scope against a model map after every step.",
-         NOTE % "the deductive claim does not cover AVL Remove and the BTree mutators Put/Remove (assumed contracts, backed by the bounded stand-in only); RedBlackTree.Remove's package-internal colour precondition is not checked at the wrappers' call sites (it is proved to be preserved by every tree operation).", "DESIGN.md §4 C01"),
+ "C01": (GENERIC % "HashMap, HashBidiMap, LinkedHashMap, TreeMap (by delegation), TreeBidiMap (all operations incl. Put), RedBlackTree (every operation incl. Remove verified against ghost rank/sequence), AVLTree (every operation incl. Put and Remove; their recursive drivers put/remove/removeMin are verified in the thorough tier and their contracts assumed in the quick tier), BTree (construction, in-node search, root split, Clear/Size/Empty, and - against a tree-level ghost invariant - Get/GetNode/searchRecursively/Keys/Values). Bounded stand-in (labelled bounded in the evidence, never counted as proved): RedBlackTree.Remove, AVLTree Put/Remove (both redundantly) and BTree Put/Remove (contracts assumed, `trusted`) are executed on every Put/Remove history of a stated small scope against a model map after every step.",
+         NOTE % "the deductive claim does not cover the BTree mutators Put/Remove (assumed contracts, backed by the bounded stand-in only); the AVL drivers are verified in the thorough tier only; RedBlackTree.Remove's package-internal colour precondition is not checked at the wrappers' call sites (it is proved to be preserved by every tree operation).", "DESIGN.md §4 C01"),
  "C02": (GENERIC % "RedBlackTree and AVLTree navigation (Left/Right/Floor/Ceiling/Get over a ghost in-order node sequence with strictly ascending keys as invariant), their iterators and Keys/Values, RedBlackTree.Put preserving order, TreeMap (Min/Max/Floor/Ceiling/Keys/Values), TreeSet.Values, TreeBidiMap Keys/Values; BTree Left/Right (the leaf holding the first / last position), iterator and Keys/Values in position order over the tree-level ghost invariant (strictly ascending keys).",
-         NOTE % "AVL and B-tree mutators (order after those operations is checked by the bounded stand-in only: sorted Keys(), Floor/Ceiling/Left/Right against the model after every step); the interface-typed LeftKey/RightKey/LeftValue/RightValue of the B-tree are proved panic-free and pure only (their value is checked by the stand-in).", "DESIGN.md §4 C02"),
+         NOTE % "B-tree mutators (order after those operations is checked by the bounded stand-in only; AVL Put/Remove are verified in the thorough tier: sorted Keys(), Floor/Ceiling/Left/Right against the model after every step); the interface-typed LeftKey/RightKey/LeftValue/RightValue of the B-tree are proved panic-free and pure only (their value is checked by the stand-in).", "DESIGN.md §4 C02"),
  "C03": (GENERIC % "ArrayList, SinglyLinkedList and DoublyLinkedList: every operation named by the statement (Add/Append/Prepend/Insert/Remove/Set/Swap/Sort/Clear/Get/IndexOf/Contains/Size/Values) against one sequence specification, linked lists through a ghost node sequence.",
          NOTE % "ArrayList.Sort's sortedness and permutation clauses rest on the assumed slices.SortFunc contract (the list's own obligations — frame, length, short lists untouched — are proved).", "DESIGN.md §4 C03"),
  "C04": (GENERIC % "HashSet, LinkedHashSet, TreeSet: Add/Remove/Contains/Clear/Size/Values.", NOTE % "nothing of the three sets.", "DESIGN.md §4 C04"),
@@ -41,8 +41,8 @@ CLAIMED = {
          NOTE % "none of the nine operations.", "DESIGN.md §4 C13"),
  "C14": (GENERIC % "Each (exact callback sequence through a ghost call log: the iterator's pairs at positions 0..n-1, in order, once each), Any/All/Find (exists / for-all / first match), Select (exactly the matching elements, original relative order via ghost position maps or ranks, same comparator) and Map on the three lists, TreeSet, LinkedHashSet, TreeMap, LinkedHashMap; Each/Any/All/Find on TreeBidiMap; receiver unchanged (frame) and result freshly allocated.",
          NOTE % "Map on sets/maps is proved in the direction 'every mapped element is in the result' (and size bound) only; TreeBidiMap.Map only soundness of the result, size bound and presence of the last mapped pair (a many-to-one f evicts, as repeated Put does).", "DESIGN.md §4 C14"),
- "C15": (GENERIC % "Size/Empty/Values/Keys/Clear agreement for every container under contract (incl. the B-tree's observers over the tree-level ghost invariant), and String() of 18 containers: begins with the container's name (string constants decided by Go's own strings.HasPrefix, concatenation and TrimRight by axioms) and writes nothing.",
-         NOTE % "String() of RedBlackTree, AVLTree and BTree (recursive output through a *string parameter / bytes.Buffer, outside the subset) is checked by the bounded stand-in only (name prefix, container unchanged).", "DESIGN.md §4 C15"),
+ "C15": (GENERIC % "Size/Empty/Values/Keys/Clear agreement for every container under contract (incl. the B-tree's observers over the tree-level ghost invariant), and String() of 20 containers (incl. the red-black and AVL trees): begins with the container's name (string constants decided by Go's own strings.HasPrefix, concatenation and TrimRight by axioms) and writes nothing.",
+         NOTE % "the text of BTree.String() (built in a bytes.Buffer the engine does not model) is checked by the bounded stand-in only; String() of RedBlackTree and AVLTree is proved (name prefix through the recursive output(…, *string), empty frame, termination), BTree String()/output are proved to return normally, terminate and write nothing.", "DESIGN.md §4 C15"),
  "C16": (GENERIC % "freshness of returned slices and ownership of stored slices (Owned two-state predicate) for every Values()/Keys() under contract; argument slices are only read (frame); containers.GetSortedValues/GetSortedValuesFunc sort the snapshot returned through the interface (assumed interface contract: Values() returns a fresh slice, which every implementation is proved to do) and have an empty frame.",
          NOTE % "sortedness of GetSortedValues / GetSortedValuesFunc rests on the assumed contracts of slices.Sort / slices.SortFunc (ascending under the ordered type's own order / the comparator); B-tree Keys()/Values() freshness is proved, their independence from later tree changes additionally checked by the bounded stand-in.", "DESIGN.md §4 C16"),
  "C17": (GENERIC % "no-panic (nil, index, slice bounds, division, make, nil-map, nil-func), explicit-panic reachability, loop variants and silence obligations for every function under contract so far.",
@@ -52,7 +52,7 @@ CLAIMED = {
 }
 
 CLAIMED["C07"] = (
- "Bounded, not proved: the balance invariants and comparator-call bounds of the statement are checked by executing the real Put/Remove/Get of RedBlackTree, AVLTree and BTree (orders 3..5 quick, 3..7 thorough) on every history of a stated finite scope (all Put/Remove histories up to length 5/6 over 4 keys; all insertion orders of 7/8 keys followed by all short removal sequences and further inserts; trees of up to 20-40 keys built in a fixed family of orders with every sequence of 2/3 removals and complete removal in every order of the family), with the documented shape predicate (colours and black heights / balance factors and heights / fill bounds, leaf depth, Height()) and the statement's comparator-call bound evaluated after every single operation. The deductive part is reported separately in the evidence: for the red-black tree the whole colour layer (equal black heights, no red node with a red child, black root — hence the documented path-length ratio), node count and parent mirror are proved to be established or preserved by NewWith, Clear, Put, Remove and FromJSON through a ghost black height; for the AVL tree the rebalancing core (rotate, singlerot, doublerot, putFix, removeFix) is proved locally against a ghost height — the slot afterwards holds a balanced root and the result reports the height change exactly; for the B-tree the order-derived fill parameters with the arithmetic lemmas that make split and merge respect the fill bounds, the in-node binary search, setParent and the root split (fill of both halves, children handed over and re-parented) are proved for all orders m >= 3. The AVL rebalancing (putFix/removeFix through **Node), the B-tree split/rebalance recursion and the comparator-call bounds of all three trees could not be brought within the engine's reach in the time available; DESIGN.md §4 C07 says why.",
+ "Bounded, not proved: the balance invariants and comparator-call bounds of the statement are checked by executing the real Put/Remove/Get of RedBlackTree, AVLTree and BTree (orders 3..5 quick, 3..7 thorough) on every history of a stated finite scope (all Put/Remove histories up to length 5/6 over 4 keys; all insertion orders of 7/8 keys followed by all short removal sequences and further inserts; trees of up to 20-40 keys built in a fixed family of orders with every sequence of 2/3 removals and complete removal in every order of the family), with the documented shape predicate (colours and black heights / balance factors and heights / fill bounds, leaf depth, Height()) and the statement's comparator-call bound evaluated after every single operation. The deductive part is reported separately in the evidence: for the red-black tree the whole colour layer (equal black heights, no red node with a red child, black root — hence the documented path-length ratio), node count and parent mirror are proved to be established or preserved by NewWith, Clear, Put, Remove and FromJSON through a ghost black height; for the AVL tree the rebalancing core (rotate, singlerot, doublerot, putFix, removeFix) is proved against a ghost height — the slot afterwards holds a balanced root and the result reports the height change exactly — and on top of it Put and Remove with their recursive drivers put/remove/removeMin (thorough tier): every node is balanced (|b| <= 1, b = h(right)-h(left)) after every Put and Remove; for the B-tree the order-derived fill parameters with the arithmetic lemmas that make split and merge respect the fill bounds, the in-node binary search, setParent and the root split (fill of both halves, children handed over and re-parented) are proved for all orders m >= 3. Height() of the B-tree is proved to be the number of levels given the tree-level ghost invariant. The B-tree split/rebalance recursion (so the B-tree shape after mutations) and the comparator-call bounds of all three trees could not be brought within the engine's reach in the time available; DESIGN.md §I.4 C07 says why.",
  "Everything the bounded stand-in does not enumerate (larger trees, longer histories, other key types) is outside the claim; the comparator bound is checked on int keys with a counting comparator. Trusted: the Go toolchain running the test binary; the shape predicates in /verif/bounded/*.go.tmpl.",
  "DESIGN.md §4 C07")
 CATEGORY = {"C07": "exploration"}
